@@ -26,7 +26,7 @@ func init() {
 		MinNonTrivial:     150,
 		MinEffectiveShare: 0.5,
 		RequiredEvents: map[string]int64{"points_compared": 30000, "kind_Deployment": 50, "kind_ReplicaSet": 50, "kind_StatefulSet": 50, "kind_DaemonSet": 50, "kind_Job": 50,
-			"kind_CronJob": 50, "kind_ReplicationController": 50, "kind_Pod": 50, "kind_OwnedPods": 50, "replicas_0": 30, "replicas_multi": 50, "collision_worlds": 20, "worlds_with_namespace_omitted": 50},
+			"kind_CronJob": 50, "kind_ReplicationController": 50, "kind_Pod": 50, "kind_OwnedPods": 50, "replicas_0": 30, "replicas_multi": 50, "collision_worlds": 20, "worlds_with_namespace_omitted": 50, "owned_pods_with_extra_owner_references": 50},
 	})
 }
 
@@ -48,7 +48,7 @@ func reexpress(g *rng.R, w *world.World, r *run.CaseResult) (*world.World, strin
 			changed = true
 		}
 		wl.Kind = k
-		wl.Replicas, wl.NPods, wl.OwnerKind = nil, 0, ""
+		wl.Replicas, wl.NPods, wl.OwnerKind, wl.ExtraOwners = nil, 0, "", ""
 		r.Ev("kind_"+k, 1)
 		switch k {
 		case world.KDeployment, world.KReplicaSet, world.KStatefulSet, world.KRC, world.KJob:
@@ -65,6 +65,11 @@ func reexpress(g *rng.R, w *world.World, r *run.CaseResult) (*world.World, strin
 		case world.KOwnedPods:
 			wl.NPods = g.Range(1, 3)
 			wl.OwnerKind = rng.Pick(g, []string{world.KReplicaSet, world.KStatefulSet, world.KDaemonSet, world.KJob, world.KRC})
+			// "sharing one controller ownerReference": further owners that are not controllers, before or after it, change nothing
+			wl.ExtraOwners = rng.Pick(g, []string{"", "", "before-false", "after-false", "before-omitted", "after-omitted", "both-false"})
+			if wl.ExtraOwners != "" {
+				r.Ev("owned_pods_with_extra_owner_references", 1)
+			}
 		}
 		desc = append(desc, fmt.Sprintf("%s:%s", wl.Name, k))
 	}
